@@ -180,6 +180,7 @@ type World struct {
 	noDevs        bool           // no deviations offered any more (faults stopped)
 	tvals         map[string]time.Duration
 	consumers     []*notifyConsumer
+	crashMid      bool              // the crash in progress happens inside a storage operation
 	holdResp      func(m *Msg) bool // scripted fault: withhold matching responses
 	randExtra     map[int]int64     // per node: answer of rand.Int63() (timeout jitter)
 }
@@ -305,7 +306,8 @@ func (w *World) crash(n *Node) {
 	n.up = false
 	w.sched.KillGroup(n.group())
 	vtime.StopGroup(n.group())
-	w.mon.OnCrash(n.id, n.inc)
+	w.mon.OnCrash(n.id, n.inc, w.crashMid)
+	w.crashMid = false
 	n.r = nil
 	// calls in flight on this server never return; they are not stuck callers.
 	for _, c := range w.calls {
@@ -362,6 +364,7 @@ func (w *World) Answer(node int, op string, mayFail bool) Fault {
 	switch k {
 	case 1:
 		w.logf("%s", labels[1])
+		w.crashMid = true
 		w.crash(n)
 		vsched.Halt()
 	case 2:
@@ -376,6 +379,7 @@ func (w *World) Answer(node int, op string, mayFail bool) Fault {
 func (w *World) CrashNow(node int) {
 	n := w.nodes[node]
 	w.logf("n%d crash-after", node)
+	w.crashMid = true
 	w.crash(n)
 	vsched.Halt()
 }
